@@ -201,6 +201,7 @@ def labels(rep, prog, split):
                         side.setdefault(tgt, set()).add(opp[_alias_root(split, a["ref"]["did"])])
     # an id variable that receives the value of another id variable (x = y; / T x = y;) is built on y's side(s)
     copied_from = set()
+    copies = []
     for _round in range(3):
         for n in walk(split["body"]):
             tgt = rhs = None
@@ -211,6 +212,7 @@ def labels(rep, prog, split):
             if tgt is not None and rhs.get("k") == "DeclRefExpr" and rhs["ref"].get("did") in side:
                 side.setdefault(tgt, set()).update(side[rhs["ref"]["did"]])
                 copied_from.add(rhs["ref"]["did"])
+                copies.append((tgt, rhs["ref"]["did"]))
     n_sites = 0
     for n in walk(split["body"]):
         if n.get("k") == "CXXMemberCallExpr" and n.get("callee") == "face::set_face_type_id":
@@ -240,7 +242,27 @@ def labels(rep, prog, split):
         d = [v for v in walk(split["body"]) if v.get("k") == "Var" and v.get("did") == did][0]
         if dels and fi.order[id(d)] > min(fi.order[id(x)] for x in dels):
             rep.violation("C11.label-propagation", prog, split, d, "label %s read after the parent face was deleted" % d["name"], "'%s' is read from the parent face after delete_face: the slot may already describe another face" % d["name"])
-    created = {d for d in side if d not in copied_from}      # the variables that finally hold the ids (not the temporaries copied into them)
+    # one created face = one class of id variables connected by copies (x = y; / T x = y;); it is labelled when any variable of
+    # its class is the argument of get_face(...).set_face_type_id
+    root = {d: d for d in side}
+    def find(d):
+        while root[d] != d:
+            d = root[d]
+        return d
+    for a_, b_ in copies:
+        if a_ in root and b_ in root:
+            root[find(a_)] = find(b_)
+    classes = {find(d) for d in side}
+    labelled = set()
+    for n in walk(split["body"]):
+        if n.get("k") == "CXXMemberCallExpr" and n.get("callee") == "face::set_face_type_id":
+            o = strip(call_obj(n))
+            if o.get("k") == "CXXMemberCallExpr" and o.get("callee") == "cell::get_face":
+                idv = strip(call_args(o)[0])
+                if idv.get("k") == "DeclRefExpr" and idv["ref"].get("did") in root:
+                    labelled.add(find(idv["ref"]["did"]))
+    created = classes
+    n_sites = len(labelled) if n_sites else 0
     if n_sites < len(created) or n_sites == 0:
         rep.violation("C11.label-propagation", prog, split, None, "%d of %d new faces labelled" % (n_sites, len(created)), "split_edge creates %d faces but labels only %d of them: the others silently get face type 0" % (len(created), n_sites))
 
